@@ -245,10 +245,12 @@ def appendFile (f : FileL) (sizeLimit : Nat) (logs : List Log) : Except Err File
       let hdr := if f.wsize = 0 then fileHeaderLen else 0
       let buf := hdr + batchFrameBytes logs
       let n := f.entries.length + logs.length
-      let doSeal := u32 (f.wsize + u32 (buf + indexFrameSize n)) > sizeLimit
+      -- (uint32 in the code; files are below 4 GiB — the documented limit — so plain arithmetic here;
+      --  the wrap-around itself is modelled at L1, Model/Segment.lean)
+      let doSeal := f.wsize + (buf + indexFrameSize n) > sizeLimit
       let buf' := if doSeal then buf + indexFrameSize n else buf
       .ok { f with entries := f.entries ++ logs
-                 , wsize := u32 (f.wsize + u32 (buf' + frameHeaderLen))
+                 , wsize := f.wsize + (buf' + frameHeaderLen)
                  , indexStart := if doSeal then f.wsize + (buf + frameHeaderLen) else 0 }
 
 /-- `rotateSegmentLocked`: seal the tail in meta and add a new tail -/
@@ -362,7 +364,7 @@ def Wal.truncateTail (w : Wal) (newMax : Nat) : Wal × Option Err :=
           else
             let hdr := if f.wsize = 0 then fileHeaderLen else 0
             let is := f.wsize + (hdr + frameHeaderLen)
-            let f' := { f with indexStart := is, wsize := u32 (f.wsize + u32 (hdr + indexFrameSize f.entries.length + frameHeaderLen)) }
+            let f' := { f with indexStart := is, wsize := f.wsize + (hdr + indexFrameSize f.entries.length + frameHeaderLen) }
             ({ t with sealed := true, indexStart := is }, updFile w.files f', true)
     let _ := tci
     if ¬ ok then (w, some .other)
